@@ -41,7 +41,7 @@ func ceilDiv(a, b int64) int64 { return (a + b - 1) / b }
 func runC09(s *kernel.Sim) {
 	tp := s.Tape
 	nRem := tp.Range(1, 3)
-	wins := []int{1, 2, 3, 5, 10, 60}
+	wins := []int{1, 2, 3, 5, 10, 60, 7, 13, 1000}
 	pcts := []int{1000, 500, 333, 250, 100, 0, 667, 15}
 	var rems []*c09remedy
 	for i := 0; i < nRem; i++ {
